@@ -29,7 +29,8 @@ BIG = [65536, 65537]
 
 
 def hostile_lengths(size):
-    return sorted(set(list(range(0, min(2 * size + 3, 300))) + [size, 2 * size + 2, 65536]))
+    # every length up to 2*size+2, and lengths that alias the right one modulo 2^8 / 2^16
+    return sorted(set(list(range(0, min(2 * size + 3, 300))) + [size, 2 * size + 2, 65536, size + 256, size + 65536, size + 131072]))
 
 
 def build(env, sessions_per_cell, huge):
@@ -75,6 +76,15 @@ def build(env, sessions_per_cell, huge):
             # --- receiver setup with hostile material
             rargs = dict(m["rargs"])
             base = dict(mode=mode, skr="$kR.sk", info="-")
+            # keys that are valid but stand in an unusual RELATION to the other arguments
+            related = ["$kR.pk", "$S.enc"] + (["$kS.pk"] if mode in (2, 3) else [])
+            for e in related:
+                s.call("setup_r", enc=e, out="X", cls="related_enc", **dict(mode=mode, skr="$kR.sk", info="-"), **dict(m["rargs"]))
+                s.call("ss_open", enc=e, ct=g.rbytes(20), aad="-", api="alloc", cls="related_enc", **dict(mode=mode, skr="$kR.sk", info="-"), **dict(m["rargs"]))
+            if mode in (2, 3):
+                ra2 = dict(m["rargs"])
+                ra2["pks"] = "$kR.pk"
+                s.call("setup_r", enc="$S.enc", out="X", cls="related_pkS", **dict(mode=mode, skr="$kR.sk", info="-"), **ra2)
             hostile_enc = [g.rbytes(npk), "@z:00:%d" % npk, "@z:ff:%d" % npk, "$S.enc^flip:%d" % rnd.randrange(8 * npk),
                            "$S.enc^trunc:%d" % rnd.randrange(npk), "$S.enc^app:00", "-", g.rbytes(rnd.choice([1, npk - 1, npk + 1, 65536]))]
             if kem == 0x0020:
@@ -108,6 +118,15 @@ def build(env, sessions_per_cell, huge):
             for L in (0, 1, 255 * nh, 255 * nh + 1, 65535, 65536, 65537, 1 << 20):
                 s.call("export", ctx=rnd.choice("SR"), exctx=g.rbytes(rnd.choice([0, 1, big])), len=L, cls="export")
             s.call("derive_keypair", ikm=g.rbytes(rnd.choice([0, big])), cls="ikm")
+    # length sweeps on one context per KDF: every exporter-context length, every 3rd aad / info length
+    for i, kdf in enumerate(gen.KDFS):
+        s = cw.session(0x0020, kdf, gen.SEAL_AEADS[i], sid="sweep%d" % kdf)
+        gen.add_pair(s, g, 0x0020, 0)
+        for L in range(0, 2300):
+            s.call("export", ctx="S", exctx="@z:61:%d" % L, len=8, cls="sweep_exctx")
+        for L in range(0, 2300, 3):
+            s.call("seal", ctx="S", api="inplace", pt="00", aad="@z:62:%d" % L, cls="sweep_aad")
+            s.call("setup_r", mode=0, skr="$kR.sk", enc="$S.enc", info="@z:63:%d" % L, out="X", cls="sweep_info")
     return cw
 
 
